@@ -10,7 +10,7 @@ import (
 
 var (
 	AttrNames  = []string{"a", "ab", "abc", "b1", "name", "type", "id", "count", "for_each", "x-y", "é1", "src", "val", "c", "ca"}
-	BlockNames = []string{"blk", "b1", "res", "ab", "nest", "dynamic", "content", "mod", "c2"}
+	BlockNames = []string{"blk", "b1", "res", "ab", "nest", "dynamic", "content", "mod", "c2", "resource"}
 	LabelVals  = []string{"aws", "az", "t1"}
 	RootNames  = []string{"var", "res", "local", "data"}
 	Scopes     = []string{"", "", "var", "res"}
